@@ -35,6 +35,9 @@ type c14Cfg struct {
 type c14Case struct {
 	Cfg   c14Cfg
 	Event string
+	// OtherStopped: a second hosted controller on the same parent and child resources (so it shares every
+	// informer with this one) was started and stopped again before the event
+	OtherStopped bool
 }
 
 type c14World struct {
@@ -158,8 +161,30 @@ func c14Run(c c14Case) []mc.Finding {
 	}
 	parts := strings.Split(c.Event, ":")
 	x := c14Build(c.Cfg, parts[0] == "related")
+	if c.OtherStopped {
+		o2 := ccOpt{name: "c2", parent: x.pk, children: []*sim.Kind{kit.Leaf}, generateSel: c.Cfg.GenSel, finalize: !c.Cfg.NoFinalize}
+		if c.Cfg.Selector {
+			o2.selector = &metav1.LabelSelector{MatchLabels: map[string]string{"app": "x"}}
+		}
+		w2, err := attachComposite(x.Base, o2, true)
+		if err != nil {
+			bad("setup", "second controller: %v", err)
+			return f
+		}
+		x.Hooks.Handle("/c2/sync", world.JSON(func(req map[string]interface{}) interface{} { return kit.M{"status": kit.M{}, "children": kit.L{}} }))
+		x.Hooks.Handle("/c2/finalize", world.JSON(func(req map[string]interface{}) interface{} { return kit.M{"status": kit.M{}, "children": kit.L{}} }))
+		if p, stack := mc.Recover(func() { w2.PC.Stop() }); p != nil {
+			bad("other-controller-stop-panic", "%v\n%s", p, stack)
+			return f
+		}
+		x.Q.Clear()
+	}
 	pinf := x.Informer(x.pk)
 	cinf := x.Informer(kit.Leaf)
+	if pinf == nil || cinf == nil {
+		bad("shared-informer-gone", "the shared informer this controller is subscribed to is gone (parent informer present: %v, child informer present: %v) although only ANOTHER subscriber closed its subscription", pinf != nil, cinf != nil)
+		return f
+	}
 	want := map[string]bool{}    // keys that must be queued
 	mayAlso := map[string]bool{} // keys that may be queued (statement is silent / permissive)
 	never := map[string]string{} // keys that must not be queued -> reason
@@ -469,9 +494,15 @@ func TestVerifC14(t *testing.T) {
 			if !mc.Mine(idx) {
 				continue
 			}
-			c := c14Case{cfg, ev}
+			c := c14Case{Cfg: cfg, Event: ev}
 			r.Case(c, fmt.Sprintf("%+v", c), func() []mc.Finding { return c14Run(c) })
 			r.Outcome(strings.Split(ev, ":")[0] + " " + c14Outcome)
+			if strings.HasPrefix(ev, "child:owned-p1:") || strings.HasPrefix(ev, "parent:p1:") {
+				c2 := c
+				c2.OtherStopped = true
+				r.Case(c2, fmt.Sprintf("%+v", c2), func() []mc.Finding { return c14Run(c2) })
+				r.Outcome("other-stopped " + c14Outcome)
+			}
 			if idx%211 == 0 {
 				r.Sample(c)
 			}
